@@ -134,13 +134,18 @@ theorem milestones_sound (posOf : Nat → Option V3) (box p : V3) (rs : List DRe
 
 /-! ### acceptance -/
 
-theorem acceptStep_parts {regions drs opt posOf box last p bend overlap}
-    (h : acceptStep regions drs opt posOf box last p bend overlap = true) :
-    fulfill p regions = true ∧ checksMilestones posOf box p drs = true ∧
-      isRestricted opt (p.sub last) = true ∧ bend = true ∧ overlap = false := by
-  simp only [acceptStep, Bool.and_eq_true, Bool.not_eq_true'] at h
-  exact ⟨h.1.1.1.1, h.1.1.1.2, h.1.1.2, h.1.2, h.2⟩
+theorem add_sub_cancel_v3 (a b : V3) : (a.add b).sub a = b := by
+  cases a; cases b
+  simp only [V3.add, V3.sub, V3.mk.injEq]
+  refine ⟨by ring, by ring, by ring⟩
 
+theorem acceptStep_parts {regions drs opt posOf box last step bend overlap}
+    (h : acceptStep regions drs opt posOf box last step bend overlap = true) :
+    fulfill (wrapV (last.add step) box) regions = true ∧
+      checksMilestones posOf box (wrapV (last.add step) box) drs = true ∧
+      isRestricted opt step = true ∧ bend = true ∧ overlap = false := by
+  simp only [acceptStep, Bool.and_eq_true, Bool.not_eq_true', add_sub_cancel_v3] at h
+  exact ⟨h.1.1.1.1, h.1.1.1.2, h.1.1.2, h.1.2, h.2⟩
 
 /-! ### bounds along a path -/
 
